@@ -61,6 +61,28 @@ def _explore(out, tier, seed, facts, replay):
                         if len(set(counts)) != 1:
                             out.violation("case-counts-differ", "inputs scored on different numbers of cases %r (fields %r axis %s slice %d)"
                                           % (counts, fs, datagen.AXES[ax], ai), {"dataset": ds, "request": [fs, ax, ai]})
+        # (1b) what ONE run delivers: all inputs are asked in command-line order on the same dataset object (as every output
+        # does); each answer must be the one a dataset built for that request alone gives (-obsrange included)
+        dshared = datagen.impl_data(ds)
+        if not isinstance(dshared, tuple):
+            for ax in (3, 1):
+                if int(sizes[ax]) == 0:
+                    continue
+                for k in range(ninp):
+                    a = datagen.impl_request(dshared, (["obs", "fcst"], k, ax, 0))
+                    b = datagen.impl_request(ds, (["obs", "fcst"], k, ax, 0))
+                    nf += 1
+                    if isinstance(a, tuple) or isinstance(b, tuple):
+                        if a != b:
+                            out.violation("inputs-in-one-run", "input %d asked after inputs 0..%d on one dataset object ends in %r, alone in %r" % (k, k - 1, a, b),
+                                          {"dataset": ds, "request": [["obs", "fcst"], k, ax, 0]})
+                        break
+                    if not datatie.compare_cols(a, b):
+                        out.violation("inputs-in-one-run", "input %d asked after inputs 0..%d on one dataset object is scored on %d cases %s; "
+                                      "a dataset asked for input %d alone gives %d cases %s (axis %s)"
+                                      % (k, k - 1, len(a[0]), str(a[0])[:80], k, len(b[0]), str(b[0])[:80], datagen.AXES[ax]),
+                                      {"dataset": ds, "request": [["obs", "fcst"], k, ax, 0]})
+                        break
         # (2) an input lacking observations is scored against those of the first input that has them
         lacking = [k for k in range(ninp) if "obs" not in ds["inputs"][k]["fields"]]
         if lacking and "obs_range" not in ds["cfg"] and "clim" not in ds["cfg"]:
